@@ -293,6 +293,25 @@ def allSeq : List (Unit → Res Bool) → Res Bool
   | c :: cs => do
     if ← c () then allSeq cs else pure false
 
+/-- the horizontal condition of `MaskUtil_applyMaskPenaltyRule3` at column `x` of row `arrayY`:
+    `x+6 < width && arrayY[x] == 1 && … && arrayY[x+6] == 1 && (isWhiteHorizontal(arrayY, x-4, x) || isWhiteHorizontal(arrayY, x+7, x+11))` -/
+def rule3Horizontal (arrayY : List Int) (width x : Int) : Res Bool :=
+  let at_ (k : Int) (want : Int) : Unit → Res Bool := fun _ => do pure ((← idx arrayY (x + k)) = want)
+  allSeq [fun _ => pure (decide (x + 6 < width)),
+    at_ 0 1, at_ 1 0, at_ 2 1, at_ 3 1, at_ 4 1, at_ 5 0, at_ 6 1,
+    fun _ => do
+      if ← isWhiteHorizontal arrayY (x - 4) x then pure true
+      else isWhiteHorizontal arrayY (x + 7) (x + 11)]
+
+/-- the vertical condition at (x, y) -/
+def rule3Vertical (array : List (List Int)) (height x y : Int) : Res Bool :=
+  let vat (k : Int) (want : Int) : Unit → Res Bool := fun _ => do pure ((← idx (← idx array (y + k)) x) = want)
+  allSeq [fun _ => pure (decide (y + 6 < height)),
+    vat 0 1, vat 1 0, vat 2 1, vat 3 1, vat 4 1, vat 5 0, vat 6 1,
+    fun _ => do
+      if ← isWhiteVertical array x (y - 4) y then pure true
+      else isWhiteVertical array x (y + 7) (y + 11)]
+
 /-- `MaskUtil_applyMaskPenaltyRule3` -/
 def applyMaskPenaltyRule3 (m : ByteMatrix) : Res Int := do
   let array := m.bytes
@@ -301,19 +320,9 @@ def applyMaskPenaltyRule3 (m : ByteMatrix) : Res Int := do
   let numPenalties ← forRange 0 height (fun y (n : Int) =>
     forRange 0 width (fun x (n : Int) => do
       let arrayY ← idx array y
-      let at_ (k : Int) (want : Int) : Unit → Res Bool := fun _ => do pure ((← idx arrayY (x + k)) = want)
-      let h ← allSeq [fun _ => pure (decide (x + 6 < width)),
-        at_ 0 1, at_ 1 0, at_ 2 1, at_ 3 1, at_ 4 1, at_ 5 0, at_ 6 1,
-        fun _ => do
-          if ← isWhiteHorizontal arrayY (x - 4) x then pure true
-          else isWhiteHorizontal arrayY (x + 7) (x + 11)]
+      let h ← rule3Horizontal arrayY width x
       let n := if h then n + 1 else n
-      let vat (k : Int) (want : Int) : Unit → Res Bool := fun _ => do pure ((← idx (← idx array (y + k)) x) = want)
-      let v ← allSeq [fun _ => pure (decide (y + 6 < height)),
-        vat 0 1, vat 1 0, vat 2 1, vat 3 1, vat 4 1, vat 5 0, vat 6 1,
-        fun _ => do
-          if ← isWhiteVertical array x (y - 4) y then pure true
-          else isWhiteVertical array x (y + 7) (y + 11)]
+      let v ← rule3Vertical array height x y
       pure (if v then n + 1 else n)) n) 0
   pure (numPenalties * 40)
 
